@@ -196,6 +196,11 @@ def r3_safe_repr(ctx: Ctx, rid: str = "R3") -> None:
                 types = {ast.unparse(e) for e in comp.elts}
             else:
                 types = {ast.unparse(comp)}
+        if isinstance(t_, ast.Call) and ast.unparse(t_.func) == "isinstance" and t_.args and ast.unparse(t_.args[0]) == "value":
+            nb += 1
+            ctx.check(False, f"exact-type:{ast.unparse(t_)[:40]}", "compiler:has_safe_repr", f"`{ast.unparse(t_)}` accepts subclasses",
+                      f"has_safe_repr tests `{ast.unparse(t_)}`: a subclass (a namedtuple such as groupby's result, an OrderedDict, a str/int subclass with its own repr) passes although evaluating its repr() does not rebuild the same object - the folded constant changes type and attribute access on it fails at run time; the test must compare type(value) exactly", hs.loc(b))
+            continue
         if not types:
             continue
         nb += 1
@@ -222,4 +227,13 @@ def r3_safe_repr(ctx: Ctx, rid: str = "R3") -> None:
             finite_guard = any(("inf" in g or "isfinite" in g or "isnan" in g or "val != val" in g) for g, pol in gts)
             if is_float_path and not finite_guard and any("isinstance(val, float)" in g and pol for g, pol in gts):
                 bad = True
+    # a folded constant lands in operand position (`Pow(Const(-2), x)` after Neg was folded):
+    # the text written for it must be an atom, so a bare repr()/str() may only be written once
+    # a leading sign has been ruled out
+    for c in astq.calls(vc.node):
+        if astq.callee(c) == "self.write" and c.args and ast.unparse(c.args[0]) in ("str(val)", "repr(val)"):
+            gts = astq.guard_texts(vc.node, c)
+            signed_out = any((("< 0" in g) or ("'-'" in g) or ('"-"' in g)) and not pol for g, pol in gts)
+            ctx.check(signed_out, f"visit_Const:atom:{ast.unparse(c.args[0])}", "compiler:CodeGenerator.visit_Const", f"bare {ast.unparse(c.args[0])} written without excluding a leading sign",
+                      f"visit_Const writes {ast.unparse(c.args[0])} on a path where the value may be negative (guards: {gts}): the optimizer folds `-2` to the constant -2, whose bare text `-2` as the left operand of `**` means -(2 ** x) - `{{{{ (-2) ** x }}}}` gives -4 with the optimizer and 4 without", vc.loc(c))
     ctx.check(not bad, "visit_Const:float", "compiler:CodeGenerator.visit_Const", "float re-emission", "floats are re-emitted with str(): inf / nan (a folded 1e999) become the undefined names `inf` / `nan` in the generated module", vc.loc())
